@@ -331,9 +331,9 @@ func mangle(s string) string {
 
 // Decls collects sort/function/constant declarations for one SMT problem family.
 type Decls struct {
-	sorts     []string          // uninterpreted sorts, in order
+	sorts     []string // uninterpreted sorts, in order
 	sortSeen  map[string]bool
-	datatypes []string          // full (declare-datatypes ...) commands in dependency order
+	datatypes []string // full (declare-datatypes ...) commands in dependency order
 	dtSeen    map[string]bool
 	funs      []string          // (declare-fun ...) / (define-fun ...) commands in order
 	funSeen   map[string]string // name -> result sort
